@@ -29,7 +29,8 @@ RULE = ("seeded annotated networks with 1-3 topologies (cliques 2-4, 4-/5-cycles
         "vertices) per invocation; vertex annotations stored as tuples, as lists, or as lists and tuples SIDE BY SIDE in one network; "
         "30% of the topology lists contain a motif type whose edges carry two topology names under one motif id (diamond rim + "
         "chord, ...); histories of 1..5 operations on one extractor (get_ejks again, fresh "
-        "extractor, overall-degree variant); non-trivial = network has >= 2 edges and the history has >= 2 extractions; "
+        "extractor, overall-degree variant, an extraction interrupted at a library line, an IN-PLACE EDIT of the network (an edge "
+        "removed) after which extractions are judged against the edited network); non-trivial = network has >= 2 edges and the history has >= 2 extractions; "
         "distinct = distinct execution digests")
 ASSUMPTIONS = ["reference = direct tally over ordered edge ends; float tolerance 1e-12 + 4.5e-16 x (edge ends of the topology), i.e. "
                "accumulated rounding of the additions that make up a cell and nothing more (a fixed 1e-12 false-alarmed on a "
@@ -65,7 +66,7 @@ def generate(prng, tier, index):
         sc["policy"] = {"shuffle": prng.choice(("uniform", "uniform", "identity", "adjswap"))}
     ops = ["same"]
     for _ in range(prng.randrange(0, 5)):
-        ops.append(prng.choice(("same", "same", "fresh", "overall", "same_interrupted")))
+        ops.append(prng.choice(("same", "same", "fresh", "overall", "same_interrupted", "edit")))
     sc["ops"] = ops
     sc["names_prefix"] = prng.choice((ntop, ntop, ntop, max(1, ntop - 1)))
     sc["set_order"] = prng.choice(("natural", "natural", "reversed", "shuffled"))
@@ -224,6 +225,19 @@ def _execute(sc, ctx):
                 ctx.violate(f"{P}.overall", f"overall-degree matrix differs from the fraction of edge ends: got "
                                             f"{sorted(m.items())[:3]}, expected {sorted(ref.items())[:3]}")
                 return
+            continue
+        if op == "edit":
+            # the caller edits the network IN PLACE between two extractions on the same extractor (removes an edge of a
+            # topology that keeps at least two); later extractions are judged against the network as it then is
+            per = {}
+            for u, v, d in G.edges(data=True):
+                per.setdefault(d.get(netsim.TOP), []).append((u, v))
+            cands = [e for es in per.values() if len(es) >= 3 for e in es]
+            if cands:
+                G.remove_edge(*cands[(k * 7 + 3) % len(cands)])
+                first = None
+                before = netsim.snapshot(G) if sc["source"] != "huge" else (G.number_of_nodes(), G.number_of_edges())
+                ctx.probe("network_edited_in_place_between_extractions")
             continue
         if op == "same_interrupted":
             # interrupt an extraction on the SAME extractor at an arbitrary executed line; the next calls must be right
